@@ -16,7 +16,7 @@ WS = ["", " ", "\t", "\n "]
 # condition-expression menu: chosen to stress the AHB lexer's character class / look-ahead and to produce every outcome
 MENU = ["[1]", "[2]", "[3]", "[501]", "[1]u[2]", "[1] U [3]", "[2]O[1]", "[2] o [3]", "[1]X[2]", "[3]x[1]", "([1]∧[2])∨[3]",
         "[1][901]", "[2][902]", "([1]u[3])[902]", "[1P]", "[1]U[UB1]", "[1] U [501] U [901]", "[7P0..1]o[2]", "[501]u[901]",
-        "(([3]))"]
+        "(([3]))", "[2] U [902]", "[1]∧[902]", "[3] u [902] o [2]"]
 OUTCOME_MENU = ["[1]", "[2]", "[3]", "[501]"]  # F / U / UNKNOWN / NEUTRAL under CER 0
 STRESS_MENU = ["[1]u[2]", "[2]O[1]", "[3]x[1]", "([1]∧[2])∨[3]", "[1][901]"]
 PACKAGES = {"1P": "[1] U [2]", "7P": "[3] X [1]"}
